@@ -35,6 +35,7 @@ fn main() {
                 "sync" => "sync",
                 "sketch" => "sketch",
                 "deque" => "deque",
+                "config" => "config",
                 _ => usage(),
             };
             let seed: u64 = args[3].parse().unwrap_or_else(|_| usage());
@@ -50,11 +51,13 @@ fn main() {
                     gen::Profile::parse(prof).unwrap_or_else(|| usage())
                 };
                 let case_seed = types::splitmix(seed.wrapping_mul(1_000_003).wrapping_add(i));
-                if kind == "sketch" || kind == "deque" {
+                if kind == "sketch" || kind == "deque" || kind == "config" {
                     let lines = if kind == "sketch" {
                         facade::gen_sketch(case_seed, len)
-                    } else {
+                    } else if kind == "deque" {
                         facade::gen_deque(case_seed, len)
+                    } else {
+                        facade::gen_config(case_seed, len)
                     };
                     for l in lines {
                         writeln!(out, "{}", l).unwrap();
